@@ -171,7 +171,9 @@ class RandomHistories(Facet):
         return (300, 2) if tier == "quick" else (1500, 16)
 
     def strategy(self, tier):
-        val = st.one_of(st.integers(-3, 3), st.sampled_from([0.0, 0.5, -0.5, 1e-9, 1e9, -1e9]), st.floats(-10, 10, allow_nan=False))
+        from vk.values import exact_int_values, single_objective_values
+
+        val = single_objective_values()
         single = st.builds(
             lambda vs, m, bs: {"kind": "single", "values": vs, "minimize": m, "batches": bs},
             st.lists(val, min_size=1, max_size=12),
@@ -182,7 +184,7 @@ class RandomHistories(Facet):
         multi = nobj.flatmap(
             lambda k: st.builds(
                 lambda vs, m, agg, bs: {"kind": "multi", "values": vs, "minimize": m, "aggregate": agg, "batches": bs},
-                st.lists(st.lists(st.integers(-2, 2), min_size=k, max_size=k), min_size=1, max_size=10),
+                st.lists(st.lists(exact_int_values(-2, 2), min_size=k, max_size=k), min_size=1, max_size=10),
                 st.one_of(st.booleans(), st.lists(st.booleans(), min_size=k, max_size=k)),
                 st.sampled_from(["default", "first", "sum", "neg-last"]),
                 st.lists(st.integers(1, 4), min_size=10, max_size=10),
@@ -515,6 +517,8 @@ class TrackerMachineFacet(Facet):
         from hypothesis import strategies as st
         from hypothesis.stateful import RuleBasedStateMachine, initialize, invariant, rule
 
+        from vk.values import single_objective_values
+
         from vk.core import PropertyViolation
 
         class TrackerMachine(RuleBasedStateMachine):
@@ -527,7 +531,7 @@ class TrackerMachineFacet(Facet):
             def init(self, minimize):
                 self.ops = [["init", minimize]]
 
-            @rule(v=st.one_of(st.integers(-2, 3), st.sampled_from([0.5, -0.5, 1e9])))
+            @rule(v=single_objective_values(-2, 3))
             def new(self, v):
                 self.ops.append(["new", v])
 
